@@ -100,7 +100,7 @@ def flatten(history):
         elif op[0] in ('mergelist', 'plain2', 'mixedlist'):
             for vd, si in op[1:]:
                 pubs.append((vd, si))
-        elif op[0] == 'plain':
+        elif op[0] in ('plain', 'plainlist'):
             pubs.append((op[1], op[2]))
         else:
             raise ValueError('unknown op %r' % (op,))
@@ -345,6 +345,8 @@ def show_history(history):
             parts.append('merge(%s @s%d)' % (sv(op[1]), op[2] + 1))
         elif op[0] == 'plain':
             parts.append('merge(plain %s, asof=s%d)' % (sv(op[1]), op[2] + 1))
+        elif op[0] == 'plainlist':
+            parts.append('merge(L, asof=s%d) with L = [plain %s] (one list object for every such call)' % (op[2] + 1, sv(op[1])))
         elif op[0] == 'mixedlist':
             parts.append('bi_merge(store, [plain %s, Bi(%s @s%d)], asof=s%d)' % (sv(op[1][0]), sv(op[2][0]), op[2][1] + 1, op[1][1] + 1))
         elif op[0] == 'plain2':
@@ -403,7 +405,23 @@ class History(BfsSuite):
         has_list = any(op[0] != 'merge' for op in history)
         mk = mk_series if self.container == 'series' else (lambda vd: mk_series(vd).to_frame('x'))
 
-        def apply_op(store, op, check):
+        owned = {}          # version descriptor -> the caller's list [plain series], reused by every 'plainlist' op of one replay
+
+        def apply_op(store, op, check, owned=owned):
+            if op[0] == 'plainlist':
+                key_ = repr(op[1])
+                first_use = key_ not in owned
+                if first_use:
+                    owned[key_] = [mk(op[1])]
+                L_ = owned[key_]
+                raw0 = L_[0]
+                new = bi_merge(store, L_, asof=stamp(op[2]))
+                if check:
+                    out.call()
+                if len(L_) != 1 or L_[0] is not raw0 or UPDATED in getattr(L_[0], 'columns', []):
+                    out.viol('input-mutated', '%s: bi_merge changed the list of versions it was handed: it now holds %s' % (H, [snap(x) for x in L_]), which='version list')
+                    owned[key_] = [mk(op[1])]
+                return new
             items = [(op[1], op[2])] if op[0] in ('merge', 'plain') else [tuple(x) for x in op[1:]]
             sers = [mk(vd) for vd, si in items]                       # fresh version objects of this op
             sers0 = [snap(x) for x in sers]                           # ... as the publisher built them, before Bi / bi_merge see them
@@ -590,8 +608,9 @@ class History(BfsSuite):
         if len(history) >= 2:
             try:
                 sb = None
+                owned_b = {}
                 for i, op in enumerate(history):
-                    sb = apply_op(sb, op, check=False)
+                    sb = apply_op(sb, op, False, owned_b)
                     if i < len(history) - 1:
                         bi_read(sb, asof=None, what=-1)
                 out.call(len(history))
@@ -680,6 +699,9 @@ def gen_axes(tier):
                         yield {'history': [['merge', v0, si], ['merge', v1, sj]], 'tz': True}
                     if 2.0 in v0 + v1:
                         yield {'history': [['merge', v0, si], ['merge', v1, sj]], 'zero': True}
+                    if (si, sj) == (0, 1):
+                        # a list of plain versions is the caller's object: published, revised by someone else, then published AGAIN through the same list with a later asof
+                        yield {'history': [['plainlist', v0, 0], ['merge', v1, 1], ['plainlist', v0, 2]]}
                     if si == sj or tier != 'quick':
                         # one list mixing a plain series (stamped through asof) and a Bi frame: the order of the list is the order of publication
                         yield {'history': [['merge', [1.0, 1.0], 0], ['mixedlist', [v0, sj], [v1, sj]]]}
